@@ -428,7 +428,10 @@ func (vc *VC) evalUnary(st *State, x *ast.UnaryExpr) *Value {
 		}
 		return intV(app("-", app("-", v.Term), "1"), T)
 	case token.ARROW:
-		vc.unsupported(x, "channel receive")
+		// sequential model: a receive yields an arbitrary value of the element type (no other effect)
+		vc.evalExpr(st, x.X)
+		vc.dropped["channel receive at "+vc.w.pos(x.Pos())+" (arbitrary value)"] = true
+		return vc.freshValue(st, "recv", vc.typeOf(x))
 	}
 	vc.unsupported(x, "unary %s", x.Op)
 	return nil
